@@ -167,4 +167,11 @@ def judgeFile (s : S) (lastCleanup : Int) (id : String) (content : Bytes) : Opti
     else none
   | none => some "file-outlives-chunk"
 
+/-- With persistence on, the file of a chunk that is live at `t` and whose store completed without
+    I/O error must be in the directory (with exactly the wire bytes: `judgeFile`).  `listed` are the
+    chunk ids that have a file; `excused` the ids whose latest store hit an injected I/O error (the
+    code may then keep the chunk in memory only).  Returns the first id whose file is missing. -/
+def missingFile (s : S) (t : Int) (listed excused : List String) : Option String :=
+  (s.map (·.id)).find? fun id => live s id t && !listed.contains id && !excused.contains id
+
 end EphVerif.StoreSpec
